@@ -105,11 +105,6 @@ Fixpoint rdfg_loop (k : nat) (w : st) (o d i : nat) : st :=
   end.
 
 (* snapshot variant: visit every group of the snapshot, finding it in the current list *)
-Fixpoint index_of (g : nat) (gs : list grp) : option nat :=
-  match gs with
-  | [] => None
-  | (h, _) :: r => if Nat.eqb g h then Some 0 else option_map S (index_of g r)
-  end.
 Definition rp_visit_id (w : st) (o d g : nat) : st :=
   match index_of g (pgs (E w o)) with
   | None => w
